@@ -86,6 +86,10 @@ theorem bal_pipe (fuel : Nat) (ih : Bal fuel) : ∀ s p, (execPipeline (fuel+1) 
     obtain ⟨s1, r⟩ := x
     cases r <;> simp_all
 
+theorem leaveJc_stack (s s1 : St) (h : s1.stack = s.enterJc.stack) : (s.leaveJc s1).stack = s.stack := by
+  unfold St.leaveJc St.enterJc at *
+  split <;> simp_all [St.push, St.pop]
+
 theorem bal_cmds (fuel : Nat) (ih : Bal fuel) : ∀ s cs, (execCommands (fuel+1) s cs).1.stack = s.stack := by
   intro s cs
   match cs with
@@ -93,9 +97,10 @@ theorem bal_cmds (fuel : Nat) (ih : Bal fuel) : ∀ s cs, (execCommands (fuel+1)
   | [c] => simp [execCommands, ih.cmd]
   | c :: d :: t =>
     simp only [execCommands]
-    have h1 := ih.members s (c :: d :: t) 0
-    generalize execPipeMembers fuel s (c :: d :: t) 0 = x at *
+    have h1 := ih.members s.enterJc (c :: d :: t) 0
+    generalize execPipeMembers fuel s.enterJc (c :: d :: t) 0 = x at *
     obtain ⟨s1, r⟩ := x
+    have h2 := leaveJc_stack s s1 h1
     cases r <;> simp_all
 
 theorem bal_members (fuel : Nat) (ih : Bal fuel) :
@@ -196,6 +201,7 @@ theorem bal_cmd (fuel : Nat) (ih : Bal fuel) : ∀ s c, (execCmd (fuel+1) s c).1
   | ret n => simp [execCmd]
   | exit n => simp [execCmd]
   | setE on => simp [execCmd]
+  | setM on => simp [execCmd]
   | unknown => simp [execCmd]
   | tick c k => simp only [execCmd]; split <;> simp
   | call name =>
